@@ -11,7 +11,7 @@ Trace == ndJsonDeserialize(IOEnv.TRACE)
 VARIABLES l, bad, quiet, memo
 
 Conjuncts == {"C02_Outcome", "C02_SumUntouched", "C02_SumUntouchedDuringRun", "C02_CulpritUntouched", "C02_ErrorNames",
-              "C04_CallOrder", "C04_SameInputSameOutput",
+              "C04_CallOrder", "C04_SameInputSameOutput", "C06_CallSet",
               "C07_OnlyOwnOutputs", "C07_ExistsIffRendered", "C07_NotProcessedUntouched",
               "C08_SkipOnlyIfUnchanged", "C08_ChangedRegenerates", "C08_SumAfterSuccess", "C08_Converges",
               "X_NoPanic"}
@@ -75,6 +75,8 @@ TypeCalls(c, a, todo, i) ==
 ObservedTypeCalls(o) == LET idx == SelectSeq([i \in 1..Len(o.calls) |-> i], LAMBDA i : o.calls[i].kind = "type")
                         IN [k \in 1..Len(idx) |-> <<o.calls[idx[k]].pkg, o.calls[idx[k]].gen, o.calls[idx[k]].type>>]
 Called(o) == {o.calls[i].pkg : i \in 1..Len(o.calls)}
+PkgCalls(o, p) == LET idx == SelectSeq([i \in 1..Len(o.calls) |-> i], LAMBDA i : o.calls[i].kind = "type" /\ o.calls[i].pkg = p)
+                  IN [k \in 1..Len(idx) |-> <<o.calls[idx[k]].gen, o.calls[idx[k]].type>>]
 
 (* what a completely processed package must look like afterwards *)
 PkgOK(c, a, pre, post, p) ==
@@ -103,7 +105,9 @@ Holds(cj, r, quietNow, memoNow) ==
     IN
     CASE cj = "X_NoPanic" -> (o.panic = "" \/ (hit /\ a.fault.kind = "panic")) /\ o.load_err = ""
       [] cj = "C02_Outcome" ->
-            IF hit THEN (a.fault.kind \in {"die", "panic"} => (o.died /\ ~o.failed)) /\ (a.fault.kind \notin {"die", "panic"} => (o.failed /\ ~o.died))
+            IF hit THEN /\ (a.fault.kind = "die" => (o.died /\ ~o.failed))
+                        /\ (a.fault.kind = "panic" => (o.died \/ o.failed))          \* dying or reporting it: both are "not succeeding"
+                        /\ (a.fault.kind \notin {"die", "panic"} => (o.failed /\ ~o.died))
             ELSE ~o.failed /\ ~o.died
       [] cj = "C02_SumUntouched" -> (o.failed \/ o.died) => post.sum_digest = pre.sum_digest
       [] cj = "C02_SumUntouchedDuringRun" -> \A i \in 1..Len(o.calls) : o.calls[i].sum_same
@@ -111,10 +115,18 @@ Holds(cj, r, quietNow, memoNow) ==
       [] cj = "C02_ErrorNames" -> (hit /\ o.failed) =>
             IF a.fault.kind = "err" THEN o.err_has_gen /\ o.err_has_pkg
             ELSE o.err_pos_in_culprit \/ (o.err_has_gen /\ o.err_has_pkg)
-      [] cj = "C04_CallOrder" -> ObservedTypeCalls(o) = TypeCalls(c, a, ToDo(a, pre), 1)
+      (* C04 prescribes no order of the GenerateType calls, only that nothing depends on chance: a package that is processed
+         completely is given its types in the same order as in every earlier run with the same inputs *)
+      [] cj = "C04_CallOrder" ->
+            \A p \in Complete(a, pre) : (MemoApplies(c, a, p) /\ ~o.failed /\ ~o.died /\ MemoKey(c, a, pre, p) \in DOMAIN memoNow) =>
+                                          memoNow[MemoKey(c, a, pre, p)].calls = PkgCalls(o, p)
+      (* fault-free runs call exactly the expected (package, generator, type) triples, each once (the fixture enables everything) *)
+      [] cj = "C06_CallSet" -> (a.fault.kind = "none" /\ ~o.failed /\ ~o.died) =>
+                                LET obs == ObservedTypeCalls(o)  want == TypeCalls(c, a, ToDo(a, pre), 1)
+                                IN ToSet(obs) = ToSet(want) /\ Len(obs) = Len(want)
       [] cj = "C04_SameInputSameOutput" ->
             \A p \in Complete(a, pre) : (MemoApplies(c, a, p) /\ MemoKey(c, a, pre, p) \in DOMAIN memoNow) =>
-                                          memoNow[MemoKey(c, a, pre, p)] = post.pkgs[p].out
+                                          memoNow[MemoKey(c, a, pre, p)].out = post.pkgs[p].out
       [] cj = "C07_OnlyOwnOutputs" ->
             \A i \in 1..Len(o.changes) :
                LET ch == o.changes[i] IN
@@ -133,7 +145,7 @@ IsRun(r) == r.case.step.op = "run"
 NewMemo(r, m) ==
     LET c == r.case  a == r.case.step  pre == r.obs.pre  post == r.obs.post
         ks == {p \in Complete(a, pre) : MemoApplies(c, a, p) /\ ~r.obs.failed /\ ~r.obs.died /\ MemoKey(c, a, pre, p) \notin DOMAIN m}
-    IN m @@ [k \in {MemoKey(c, a, pre, p) : p \in ks} |-> post.pkgs[k[1]].out]
+    IN m @@ [k \in {MemoKey(c, a, pre, p) : p \in ks} |-> [out |-> post.pkgs[k[1]].out, calls |-> PkgCalls(r.obs, k[1])]]
 
 JInit == l = 1 /\ bad = {} /\ quiet = 0 /\ memo = <<>>
 JNext == /\ l <= Len(Trace)
